@@ -76,12 +76,404 @@ Proof.
   rewrite firstn_app, Nat.sub_diag, firstn_all. cbn [firstn]. apply app_nil_r.
 Qed.
 
-Lemma nth_splice_out off vals arr i (d : range) :
-  (off + length vals <= length arr)%nat -> (i < off \/ off + length vals <= i)%nat ->
-  nth i (splice off vals arr) d = nth i arr d.
+Lemma skipn_skipn' {A} (l : list A) : forall y x, skipn x (skipn y l) = skipn (y + x) l.
+Proof.
+  revert l. induction l as [|a l IH]; intros y x.
+  - rewrite !skipn_nil. reflexivity.
+  - destruct y; [reflexivity|]. cbn [skipn plus]. apply IH.
+Qed.
+
+Lemma firstn_skipn_app_l {A} (l1 l2 : list A) o n :
+  (o + n <= length l1)%nat -> firstn n (skipn o (l1 ++ l2)) = firstn n (skipn o l1).
+Proof.
+  intros H. rewrite skipn_app, firstn_app, skipn_length.
+  replace (n - (length l1 - o))%nat with 0%nat by lia. cbn [firstn]. apply app_nil_r.
+Qed.
+
+(** reading a window that does not meet the one just written *)
+Lemma rd_splice_other off (vals arr : list range) o n :
+  (off + length vals <= length arr)%nat -> (o + n <= off \/ off + length vals <= o)%nat ->
+  firstn n (skipn o (splice off vals arr)) = firstn n (skipn o arr).
 Proof.
   intros H O. unfold splice. destruct O as [O | O].
-  - rewrite app_nth1 by (rewrite firstn_length; lia). rewrite nth_firstn_lt by lia. reflexivity.
-  - rewrite app_nth2 by (rewrite firstn_length; lia). rewrite firstn_length, Nat.min_l by lia.
-    rewrite app_nth2 by lia. rewrite nth_skipn. f_equal. lia.
+  - rewrite firstn_skipn_app_l by (rewrite firstn_length; lia).
+    transitivity (firstn n (skipn o (firstn off arr ++ skipn off arr))); [|rewrite firstn_skipn; reflexivity].
+    rewrite firstn_skipn_app_l by (rewrite firstn_length; lia). reflexivity.
+  - rewrite app_assoc, skipn_app.
+    rewrite (skipn_all2 (firstn off arr ++ vals)) by (rewrite app_length, firstn_length; lia).
+    cbn [app]. rewrite skipn_skipn'. f_equal. f_equal.
+    rewrite app_length, firstn_length. lia.
 Qed.
+
+Lemma wr_lengths h a off vals :
+  (off + length vals <= length (nth a h []))%nat ->
+  forall b, length (nth b (wr h a off vals) []) = length (nth b h []).
+Proof.
+  intros H b. unfold wr. destruct (Nat.eq_dec a b) as [<- | N].
+  - destruct (lt_dec a (length h)) as [L | L].
+    + rewrite nth_upd_nth_same by exact L. apply splice_length. exact H.
+    + rewrite upd_nth_beyond by lia. reflexivity.
+  - rewrite nth_upd_nth_other by exact N. reflexivity.
+Qed.
+
+Lemma rd_length h w : inb h w -> length (rd h w) = sl_len w.
+Proof. unfold inb, rd. intros H. rewrite firstn_length, skipn_length. lia. Qed.
+
+Lemma rd_same_win h w w' : same_win w w' -> rd h w = rd h w'.
+Proof. intros (A & O & N). unfold rd. rewrite A, O, N. reflexivity. Qed.
+
+Lemma rd_wr_same h s vals w :
+  inb h s -> length vals = sl_len s -> same_win w s -> rd (wr h (sl_arr s) (sl_off s) vals) w = vals.
+Proof.
+  intros I Lv (A & O & N). unfold rd, wr. rewrite A, O, N. unfold inb in I.
+  destruct (lt_dec (sl_arr s) (length h)) as [L | L].
+  - rewrite nth_upd_nth_same by exact L. rewrite <- Lv. apply rd_splice_same. lia.
+  - rewrite upd_nth_beyond by lia. rewrite nth_overflow in * by lia. cbn [length] in I.
+    assert (sl_len s = 0%nat) by lia. destruct vals; [|cbn in Lv; lia].
+    rewrite H. reflexivity.
+Qed.
+
+Lemma rd_wr_sep h s vals w :
+  inb h s -> length vals = sl_len s -> sep w s -> rd (wr h (sl_arr s) (sl_off s) vals) w = rd h w.
+Proof.
+  intros I Lv S. unfold rd, wr. unfold inb in I.
+  destruct (Nat.eq_dec (sl_arr s) (sl_arr w)) as [E | N].
+  - destruct S as [S | S]; [congruence|]. rewrite <- E.
+    destruct (lt_dec (sl_arr s) (length h)) as [L | L].
+    + rewrite nth_upd_nth_same by exact L. apply rd_splice_other; lia.
+    + rewrite upd_nth_beyond by lia. reflexivity.
+  - rewrite nth_upd_nth_other by exact N. reflexivity.
+Qed.
+
+(** ** Sorting a window of the log in place keeps the log *)
+
+Section Keep.
+  Variable h0 : heap.
+  Variable W : list sl.
+  Hypothesis WF : WFheap h0 W.
+  Hypothesis NSS : NoSmallSpare W.
+
+  Lemma kept_inb h w : kept h0 W h -> In w W -> inb h w.
+  Proof.
+    intros (Len & _) I. destruct WF as (B & _). rewrite Forall_forall in B. specialize (B w I).
+    unfold inb in *. rewrite Len. exact B.
+  Qed.
+
+  Lemma sort_keeps h s : kept h0 W h -> In s W -> kept h0 W (wr h (sl_arr s) (sl_off s) (sort_off (rd h s))).
+  Proof.
+    intros K I. pose proof (kept_inb h s K I) as B.
+    assert (Lv : length (sort_off (rd h s)) = sl_len s).
+    { rewrite (Permutation_length (sort_off_perm (rd h s))). apply rd_length. exact B. }
+    destruct K as (Len & P). split.
+    - intros a. rewrite wr_lengths; [apply Len|]. rewrite Lv. exact B.
+    - intros w Iw. destruct WF as (_ & D). destruct (D w s Iw I) as [S | S].
+      + rewrite (rd_wr_same h s _ w B Lv S). eapply perm_trans; [apply (P w Iw)|].
+        rewrite (rd_same_win h w s S). apply Permutation_sym, sort_off_perm.
+      + rewrite (rd_wr_sep h s _ w B Lv S). apply P. exact Iw.
+  Qed.
+
+  (** holders: still a slice of the log / additionally too short to be sorted *)
+  Definition rok (x : rs) : Prop := match x with Alias s => In s W | Own _ => True end.
+  Definition rok2 (x : rs) : Prop := match x with Alias s => In s W /\ (sl_len s < 2)%nat | Own _ => True end.
+  Definition hok (r : href) : Prop := rok (h_rs r).
+  Definition hok2 (r : href) : Prop := rok2 (h_rs r).
+
+  Lemma rok2_rok x : rok2 x -> rok x.
+  Proof. destruct x; cbn; tauto. Qed.
+  Lemma hok2_hok l : Forall hok2 l -> Forall hok l.
+  Proof. apply Forall_impl. intros r. apply rok2_rok. Qed.
+
+  Lemma rsm_keeps h x h' x' : kept h0 W h -> rok x -> rsm h x = (h', x') -> kept h0 W h' /\ rok2 x'.
+  Proof.
+    intros K R E. destruct x as [s | l]; cbn [rsm] in E.
+    - destruct (sl_len s <? 2)%nat eqn:T.
+      + inversion E; subst. apply Nat.ltb_lt in T. split; [exact K | cbn; auto].
+      + inversion E; subst. split; [apply sort_keeps; assumption | exact I].
+    - inversion E; subst. split; [exact K | exact I].
+  Qed.
+
+  Lemma rsm_small h x : rok2 x -> exists x', rsm h x = (h, x') /\ rok2 x'.
+  Proof.
+    intros R. destruct x as [s | l]; cbn [rsm].
+    - destruct R as (I & T). apply Nat.ltb_lt in T. rewrite T. eexists. split; [reflexivity|].
+      apply Nat.ltb_lt in T. cbn. auto.
+    - eexists. split; [reflexivity | exact I].
+  Qed.
+
+  Lemma app_small h x vals : rok2 x -> exists x', app_rs h x vals = (h, x') /\ rok2 x'.
+  Proof.
+    intros R. unfold app_rs. destruct vals as [|v vs]; [eexists; split; [reflexivity | exact R]|].
+    destruct x as [s | l]; [|eexists; split; [reflexivity | exact I]].
+    destruct R as (I & T). rewrite (NSS s I T).
+    replace (sl_len s + length (v :: vs) <=? sl_len s)%nat with false
+      by (symmetry; apply Nat.leb_gt; cbn [length]; lia).
+    eexists. split; [reflexivity | exact Logic.I].
+  Qed.
+
+  Lemma rsm_all_keeps : forall l h h' l', kept h0 W h -> Forall hok l -> rsm_all h l = (h', l') ->
+    kept h0 W h' /\ Forall hok2 l'.
+  Proof.
+    induction l as [|r t IH]; intros h h' l' K F E; cbn [rsm_all] in E.
+    - inversion E; subst. split; [exact K | constructor].
+    - inversion F as [|? ? Hr Ht]; subst.
+      destruct (rsm h (h_rs r)) as (h1, x) eqn:E1.
+      destruct (rsm_all h1 t) as (h2, t') eqn:E2. inversion E; subst.
+      destruct (rsm_keeps _ _ _ _ K Hr E1) as (K1 & R1).
+      destruct (IH _ _ _ K1 Ht E2) as (K2 & F2).
+      split; [exact K2 | constructor; [exact R1 | exact F2]].
+  Qed.
+
+  (** the grouping loop does not write at all: nothing that can still grow in place is left *)
+  Lemma hloop_pure : forall l h cur, hok2 cur -> Forall hok2 l ->
+    exists out, hloop h cur l = (h, out) /\ Forall hok2 out.
+  Proof.
+    induction l as [|r t IH]; intros h cur C F; cbn [hloop].
+    - destruct (rsm_small h (h_rs cur) C) as (x & -> & R). eexists. split; [reflexivity|].
+      constructor; [exact R | constructor].
+    - inversion F as [|? ? Hr Ht]; subst.
+      destruct (art_eqb (h_art r) (h_art cur) && mapper_eqb (h_map r) (h_map cur)).
+      + destruct (app_small h (h_rs cur) (val h (h_rs r)) C) as (x & -> & R).
+        apply IH; [exact R | exact Ht].
+      + destruct (rs_len (h_rs cur)).
+        * apply IH; assumption.
+        * destruct (rsm_small h (h_rs cur) C) as (x & -> & R).
+          destruct (IH h r Hr Ht) as (out & -> & Fo). eexists. split; [reflexivity|].
+          constructor; [exact R | exact Fo].
+  Qed.
+
+  Lemma hins_forall (P : href -> Prop) x : forall l, P x -> Forall P l -> Forall P (hins x l).
+  Proof.
+    induction l as [|y t IH]; intros Px F; cbn [hins]; [constructor; [exact Px | constructor]|].
+    inversion F; subst. destruct (is_lt (hcmp y x)).
+    - constructor; [assumption | apply IH; assumption].
+    - constructor; [exact Px | exact F].
+  Qed.
+  Lemma hsort_forall (P : href -> Prop) l : Forall P l -> Forall P (hsort l).
+  Proof.
+    induction 1; cbn; [constructor|]. apply hins_forall; assumption.
+  Qed.
+
+  Lemma hsm_keeps h s h' o : kept h0 W h -> Forall hok s -> hsm h s = (h', o) ->
+    kept h0 W h' /\ forall out, o = Ok out -> Forall hok out.
+  Proof.
+    intros K F E. unfold hsm in E.
+    destruct s as [|a [|b t]]; try (inversion E; subst; split; [exact K | intros out [= <-]; exact F]).
+    destruct (hconflict (a :: b :: t)); [inversion E; subst; split; [exact K | discriminate]|].
+    destruct (hsorted (hsort (a :: b :: t))); [|inversion E; subst; split; [exact K | discriminate]].
+    destruct (rsm_all h (hsort (a :: b :: t))) as (h1, s1) eqn:E1.
+    destruct (rsm_all_keeps _ _ _ _ K (hsort_forall _ _ F) E1) as (K1 & F1).
+    destruct s1 as [|r t1]; [inversion E; subst; split; [exact K1 | intros out [= <-]; constructor]|].
+    inversion F1; subst.
+    destruct (hloop_pure t1 h1 r ltac:(assumption) ltac:(assumption)) as (out & Eo & Fo).
+    rewrite Eo in E. inversion E; subst. split; [exact K1|]. intros out' [= <-]. apply hok2_hok. exact Fo.
+  Qed.
+
+  Lemma hresolve_ok h : forall s, Forall hok s -> Forall hok (fst (hresolve h s)).
+  Proof.
+    induction s as [|r t IH]; intros F; cbn [hresolve]; [constructor|].
+    inversion F; subst. specialize (IH ltac:(assumption)).
+    destruct (is_nil (h_map r)).
+    - destruct (hresolve h t). cbn [fst] in *. constructor; assumption.
+    - destruct (resolve (h_map r) (h_size r) (val h (h_rs r))); cbn [fst]; try exact F.
+      destruct (hresolve h t). cbn [fst] in *. constructor; [exact I | assumption].
+  Qed.
+
+  Lemma alias_ok l : incl (map l_sl l) W -> Forall hok (map alias l).
+  Proof.
+    intros I. apply Forall_forall. intros r Hr. apply in_map_iff in Hr. destruct Hr as (x & <- & Hx).
+    cbn. apply I. apply in_map. exact Hx.
+  Qed.
+
+  Lemma own_ok h l : Forall hok (map (own_copy h) l).
+  Proof. apply Forall_forall. intros r Hr. apply in_map_iff in Hr. destruct Hr as (x & <- & _). exact I. Qed.
+
+  (** ** ValidatorActorsAreProtected *)
+
+  Lemma hvap_actor_keeps h idx prev cur pa st :
+    kept h0 W h -> incl (step_windows st) W -> Forall hok prev ->
+    kept h0 W (fst (hvap_actor h idx prev cur pa st)).
+  Proof.
+    intros K I Fp. unfold hvap_actor.
+    destruct (hs_actor st); [|exact K].
+    destruct (opt_eqb (Some z) pa); [exact K|].
+    destruct (hs_code st) as [code|] eqn:Ec; [|exact K].
+    assert (Fc : Forall hok (map alias code)).
+    { apply alias_ok. intros w Hw. apply I. unfold step_windows. rewrite Ec. apply in_or_app. right. exact Hw. }
+    assert (X : exists h1 o1, (match code with [] => (h, Ok []) | _ :: _ => hsm h (map alias code) end) = (h1, o1) /\
+                kept h0 W h1 /\ forall out, o1 = Ok out -> Forall hok out).
+    { destruct code as [|c ct].
+      - exists h, (Ok []). split; [reflexivity|]. split; [exact K|]. intros out [= <-]. constructor.
+      - destruct (hsm h (map alias (c :: ct))) as (h1, o1) eqn:E1. exists h1, o1. split; [reflexivity|].
+        apply (hsm_keeps _ _ _ _ K Fc E1). }
+    destruct X as (h1 & o1 & -> & K1 & F1).
+    destruct o1 as [arefs0| | |]; try exact K1.
+    specialize (F1 arefs0 eq_refl). pose proof (hresolve_ok h1 arefs0 F1) as F2.
+    destruct (hresolve h1 arefs0) as (arefs1, e2). cbn [fst] in F2.
+    destruct arefs1 as [|a1 at1]; [exact K1|].
+    destruct (hsm h1 (a1 :: at1)) as (h2, o2) eqn:E2.
+    destruct (hsm_keeps _ _ _ _ K1 F2 E2) as (K2 & _).
+    destruct o2 as [s0| | |]; try exact K2.
+    destruct (hsm h2 prev) as (h3, o3) eqn:E3.
+    destruct (hsm_keeps _ _ _ _ K2 Fp E3) as (K3 & _).
+    destruct o3 as [s1| | |]; try exact K3.
+    destruct (excl_walk (map (hval h3) s0) (map (hval h3) s1)) as [[|n nt]| | |]; exact K3.
+  Qed.
+
+  Lemma hvap_go_keeps : forall l h idx measured pa,
+    kept h0 W h -> incl (windows l) W -> Forall hok measured ->
+    kept h0 W (fst (hvap_go h idx measured pa l)).
+  Proof.
+    induction l as [|st t IH]; intros h idx measured pa K I Fm; cbn [hvap_go]; [exact K|].
+    assert (Is : incl (step_windows st) W).
+    { intros w Hw. apply I. cbn [windows flat_map]. apply in_or_app. left. exact Hw. }
+    assert (It : incl (windows t) W).
+    { intros w Hw. apply I. cbn [windows flat_map]. apply in_or_app. right. exact Hw. }
+    assert (Fn : Forall hok (fst (hresolve h (map alias (hs_meas st))))).
+    { apply hresolve_ok, alias_ok. intros w Hw. apply Is. unfold step_windows. apply in_or_app. left. exact Hw. }
+    destruct (hsm h (measured ++ fst (hresolve h (map alias (hs_meas st))))) as (h1, o1) eqn:E1.
+    destruct (hsm_keeps _ _ _ _ K (proj2 (Forall_app _ _ _) (conj Fm Fn)) E1) as (K1 & F1).
+    destruct o1 as [cur| | |]; try exact K1.
+    specialize (F1 cur eq_refl).
+    pose proof (hvap_actor_keeps h1 idx (map (own_copy h) measured) cur pa st K1 Is (own_ok h measured)) as K2.
+    destruct (hvap_actor h1 idx (map (own_copy h) measured) cur pa st) as (h2, o2). cbn [fst] in K2.
+    destruct o2 as [[iss pa']| | |]; try exact K2.
+    specialize (IH h2 (idx + 1) cur pa' K2 It F1).
+    destruct (hvap_go h2 (idx + 1) cur pa' t) as (h3, o3). cbn [fst] in *.
+    destruct o3; exact IH.
+  Qed.
+
+  Theorem vap_keeps h l : kept h0 W h -> incl (windows l) W -> kept h0 W (fst (hvap h l)).
+  Proof. intros K I. unfold hvap. apply hvap_go_keeps; [exact K | exact I | constructor]. Qed.
+
+  (** ** ValidatorFinalCoverageIsComplete *)
+
+  Lemma hvfc_measured_keeps : forall l h measured h' o,
+    kept h0 W h -> incl (windows l) W -> Forall hok measured -> hvfc_measured h measured l = (h', o) ->
+    kept h0 W h' /\ forall m, o = Ok m -> Forall hok m.
+  Proof.
+    induction l as [|st t IH]; intros h measured h' o K I Fm E; cbn [hvfc_measured] in E.
+    - inversion E; subst. split; [exact K|]. intros m [= <-]. exact Fm.
+    - assert (Fn : Forall hok (map alias (hs_meas st))).
+      { apply alias_ok. intros w Hw. apply I. cbn [windows flat_map]. apply in_or_app. left.
+        unfold step_windows. apply in_or_app. left. exact Hw. }
+      assert (It : incl (windows t) W).
+      { intros w Hw. apply I. cbn [windows flat_map]. apply in_or_app. right. exact Hw. }
+      destruct (hsm h (measured ++ map alias (hs_meas st))) as (h1, o1) eqn:E1.
+      destruct (hsm_keeps _ _ _ _ K (proj2 (Forall_app _ _ _) (conj Fm Fn)) E1) as (K1 & F1).
+      destruct o1 as [m| | |]; try (inversion E; subst; split; [exact K1 | discriminate]).
+      apply (IH h1 m h' o K1 It (F1 m eq_refl) E).
+  Qed.
+
+  Lemma sort_inplace_keeps h x : kept h0 W h -> rok x -> kept h0 W (sort_inplace h x).
+  Proof.
+    intros K R. destruct x as [s | l]; cbn [sort_inplace]; [|exact K].
+    destruct (sl_len s <? 2)%nat; [exact K|]. apply sort_keeps; assumption.
+  Qed.
+
+  Lemma excl_fx_keeps : forall s0 s1 h, kept h0 W h -> Forall hok s1 -> kept h0 W (excl_fx h s0 s1).
+  Proof.
+    induction s0 as [|r0 t0 IH0]; intros s1 h K F; [exact K|].
+    induction s1 as [|r1 t1 IH1]; [exact K|].
+    inversion F as [|? ? H1 Ht]; subst. cbn [excl_fx].
+    destruct (cmp_ref r0 (hkey r1)).
+    - apply IH0; assumption.
+    - apply IH0; [|exact Ht]. destruct (rranges r0); [exact K|]. apply sort_inplace_keeps; assumption.
+    - apply IH1. exact Ht.
+    - exact K.
+  Qed.
+
+  Theorem vfc_keeps h files l : kept h0 W h -> incl (windows l) W -> kept h0 W (fst (hvfc h files l)).
+  Proof.
+    intros K I. unfold hvfc. destruct l as [|st0 t0]; [exact K|].
+    set (l := st0 :: t0) in *. clearbody l.
+    destruct (hvfc_measured h [] l) as (h1, o) eqn:E.
+    destruct (hvfc_measured_keeps _ _ _ _ _ K I ltac:(constructor) E) as (K1 & F1).
+    destruct o as [measured| | |]; try exact K1.
+    specialize (F1 measured eq_refl).
+    destruct files as [[|f ft]| | |]; try exact K1.
+    destruct (sm (f :: ft)) as [s0| | |]; try exact K1.
+    destruct (hsm h1 measured) as (h2, o2) eqn:E2.
+    destruct (hsm_keeps _ _ _ _ K1 F1 E2) as (K2 & F2).
+    destruct o2 as [s1| | |]; try exact K2.
+    specialize (F2 s1 eq_refl).
+    destruct (excl_walk s0 (map (hval h2) s1)) as [[|n nt]| | |]; cbn [fst]; try exact K2;
+      apply excl_fx_keeps; assumption.
+  Qed.
+End Keep.
+
+(** ** What [kept] means for a reader of the log *)
+
+Lemma kept_in_ranges h0 W h w k : kept h0 W h -> In w W -> in_ranges (rd h w) k <-> in_ranges (rd h0 w) k.
+Proof. intros (_ & P) I. symmetry. apply in_ranges_perm_iff. apply P. exact I. Qed.
+
+(** every reference of the log denotes the same (artifact, address space, address) triples *)
+Lemma kept_den h0 W h (refs : list lref) a m k :
+  kept h0 W h -> incl (map l_sl refs) W ->
+  den (map (val_lref h) refs) a m k <-> den (map (val_lref h0) refs) a m k.
+Proof.
+  intros K. induction refs as [|r t IH]; intros I; cbn [map]; [reflexivity|].
+  rewrite !den_cons. rewrite IH by (intros w Hw; apply I; right; exact Hw).
+  unfold hit, val_lref, ai. cbn [rart rmap rranges].
+  rewrite (kept_in_ranges h0 W h (l_sl r) k K) by (apply I; left; reflexivity). reflexivity.
+Qed.
+
+(** the window lists of a later pass are the same: [kept] composes *)
+Lemma kept_wf h0 W h : WFheap h0 W -> kept h0 W h -> WFheap h W.
+Proof.
+  intros (B & D) (Len & _). split; [|exact D]. rewrite Forall_forall in *. intros w I.
+  unfold inb. rewrite Len. apply B. exact I.
+Qed.
+
+(** ** Closed witnesses *)
+
+Definition wimg : art := mkArt 1 1 false (repeat 0 64%nat).
+Definition wl (m : mapper) (a o n c : nat) : lref := mkL wimg 64 m (mkSl a o n c).
+
+Ltac wf_closed :=
+  split;
+  [ repeat constructor; unfold inb; cbn; lia
+  | intros w w' Hw Hw'; cbn in Hw, Hw';
+    repeat (destruct Hw as [<- | Hw]; [|]); try contradiction;
+    repeat (destruct Hw' as [<- | Hw']; [|]); try contradiction;
+    first [ left; repeat split; reflexivity | right; unfold sep; cbn; lia ] ].
+
+(** Finding C10-shared-backing-append inside the model.  Step 0 measures the one
+    range [32,40) through a slice with len 1 and cap 2, step 1 measures [16,24),
+    step 2 hands control to an actor living in [32,40).  The first validation is
+    right (no issue) but leaves [16,24) in the slice of step 0; the second
+    validation of the same log reports the actor. *)
+Definition bad_heap : heap := [[]; [mkR 32 8; mkR 0 0]; [mkR 16 8]; [mkR 32 8]].
+Definition bad_log : list hstep :=
+  [mkHS None None [wl MNil 1 0 1 2] [];
+   mkHS None None [wl MNil 2 0 1 1] [];
+   mkHS (Some 1) (Some [wl MNil 3 0 1 1]) [] []].
+
+Theorem keeps_refuted : exists h l,
+  WFheap h (windows l) /\
+  ~ kept h (windows l) (fst (hvap h l)) /\
+  snd (hvap h l) = Ok [] /\
+  exists v, snd (hvap (fst (hvap h l)) l) = Ok [v] /\ vi_step v = 2 /\ vi_kind v = 4.
+Proof.
+  exists bad_heap, bad_log. split; [wf_closed|]. split.
+  - intros (_ & P). specialize (P (mkSl 1 0 1 2) ltac:(cbn; auto)).
+    vm_compute in P. apply Permutation_length_1 in P. discriminate.
+  - split; [vm_compute; reflexivity|]. eexists. split; [vm_compute; reflexivity|]. split; reflexivity.
+Qed.
+
+(** The hypotheses of [vap_keeps] / [vfc_keeps] are satisfiable by a log whose
+    validation does write to memory: step 0 measures three ranges out of order
+    through a slice with one spare element, step 1 a lower range; the validator
+    sorts the first array in place and nothing else. *)
+Definition ok_heap : heap := [[]; [mkR 48 4; mkR 16 4; mkR 32 4; mkR 0 0]; [mkR 8 4]].
+Definition ok_log : list hstep :=
+  [mkHS None None [wl MNil 1 0 3 4] [];
+   mkHS (Some 1) (Some [wl MNil 1 0 3 4]) [wl MNil 2 0 1 1] []].
+
+Lemma ok_log_hyps : WFheap ok_heap (windows ok_log) /\ NoSmallSpare (windows ok_log).
+Proof.
+  split; [wf_closed|]. apply no_small_spare_spec. vm_compute. reflexivity.
+Qed.
+
+Lemma ok_log_sorted :
+  fst (hvap ok_heap ok_log) = [[]; [mkR 16 4; mkR 32 4; mkR 48 4; mkR 0 0]; [mkR 8 4]].
+Proof. vm_compute. reflexivity. Qed.
